@@ -253,6 +253,9 @@ func (p *Program) computeHeldOnEntry() {
 			}
 		}
 	}
+	// only callers that module code can reach count (an exported library function nobody calls,
+	// e.g. singleflight.DoChan with its `go doCall`, must not dilute the intersection)
+	live := p.closure(p.Mod, cgOpts{FollowGo: true})
 	for _, fn := range fns {
 		n := p.CG.Nodes[fn]
 		root := n == nil || len(n.In) == 0 || (p.inModule(fn) && p.externallyCallable(fn))
@@ -321,6 +324,9 @@ func (p *Program) computeHeldOnEntry() {
 			var acc lockSet
 			accTop := true
 			for _, e := range n.In {
+				if live[e.Caller.Func] == nil {
+					continue
+				}
 				s, t := heldAt(e)
 				acc, accTop = meet(acc, accTop, s, t)
 			}
@@ -568,20 +574,23 @@ func derivedUses(root ssa.Value) []derivedUse {
 			case *ssa.MapUpdate:
 				if y.Map == v {
 					out = append(out, derivedUse{u, "map-update", true})
-				} else if y.Value == v || y.Key == v {
+				} else if (y.Value == v || y.Key == v) && isContainer(v.Type()) {
 					out = append(out, derivedUse{u, "escape-store", false})
 				}
 			case *ssa.Lookup:
 				if y.X == v {
 					out = append(out, derivedUse{u, "lookup", false})
+					// only inner containers stay under the guard; element pointers are objects with their own protection
 					if y.CommaOk {
-						add(y)
-					} else if isRefType(y.Type()) {
+						if tup, ok := y.Type().(*types.Tuple); ok && isContainer(tup.At(0).Type()) {
+							add(y)
+						}
+					} else if isContainer(y.Type()) {
 						add(y)
 					}
 				}
 			case *ssa.Extract:
-				if isRefType(y.Type()) {
+				if isContainer(y.Type()) {
 					add(y)
 				}
 			case *ssa.Range:
@@ -613,15 +622,21 @@ func derivedUses(root ssa.Value) []derivedUse {
 			case *ssa.MakeInterface:
 				add(y)
 			case *ssa.Store:
-				if y.Val == v {
+				if y.Val == v && isContainer(v.Type()) {
 					out = append(out, derivedUse{u, "escape-store", false})
 				}
 			case *ssa.Return:
-				out = append(out, derivedUse{u, "escape-return", false})
+				if isContainer(v.Type()) {
+					out = append(out, derivedUse{u, "escape-return", false})
+				}
 			case *ssa.Send:
-				out = append(out, derivedUse{u, "escape-send", false})
+				if isContainer(v.Type()) {
+					out = append(out, derivedUse{u, "escape-send", false})
+				}
 			case *ssa.MakeClosure:
-				out = append(out, derivedUse{u, "escape-closure", false})
+				if isContainer(v.Type()) {
+					out = append(out, derivedUse{u, "escape-closure", false})
+				}
 			case *ssa.Call, *ssa.Go, *ssa.Defer:
 				c := callOf(u)
 				if b, ok := c.Value.(*ssa.Builtin); ok {
@@ -645,4 +660,12 @@ func derivedUses(root ssa.Value) []derivedUse {
 		}
 	}
 	return out
+}
+
+func isContainer(t types.Type) bool {
+	switch t.Underlying().(type) {
+	case *types.Map, *types.Slice:
+		return true
+	}
+	return false
 }
